@@ -1,2 +1,3 @@
 import CtrlVerif.Driver.All
 import CtrlVerif.Props.C01
+import CtrlVerif.Props.C02
